@@ -156,6 +156,8 @@ def run(ctx):
         _c17j.json_lines(ctx, "R16.6")
     except Skip:
         pass
+    # ... and the file starts empty for every batch (rule owned by C17): no tail of an earlier, longer batch is parsed back with it
+    ctx.borrow("C17", ["R17.6"], "R16.6", "each batch is written to a freshly created file")
 
 
 def run_one(ctx, facts, cfgname):
